@@ -178,10 +178,10 @@ def polygons(ctx):
         out.append(("3x3-tri", list(vs)))
     quads = list(itertools.permutations(g3, 4))
     if not ctx.thorough:
-        quads = ctx.rng.sample(quads, 1500)
+        quads = ctx.rng.sample(quads, 800)
     for vs in quads:
         out.append(("3x3-quad", list(vs)))
-    for n, k in ((3, ctx.n(400, 3360)), (4, ctx.n(600, 12000)), (5, ctx.n(800, 20000))):
+    for n, k in ((3, ctx.n(300, 3360)), (4, ctx.n(400, 12000)), (5, ctx.n(500, 20000))):
         allp = None
         if n == 3 and ctx.thorough:
             allp = list(itertools.permutations(g4, 3))
@@ -194,7 +194,7 @@ def polygons(ctx):
         out.append(("degenerate", vs))
     # random larger polygons: star-shaped (simple by construction unless collinear) and arbitrary
     import math
-    for _ in range(ctx.n(800, 6000)):
+    for _ in range(ctx.n(500, 6000)):
         n = ctx.rng.randint(3, NV)
         if ctx.rng.random() < 0.6:
             angs = sorted(ctx.rng.uniform(0, 2 * math.pi) for _ in range(n))
@@ -287,7 +287,7 @@ def run(ctx):
 
     if ok and rows:
         try:
-            bad = harness.flat_cases(ctx, HEADER, "c44_chk", rows, 1 + NV + NP, shard=400)
+            bad = harness.flat_cases(ctx, HEADER, "c44_chk", rows, 1 + NV + NP, shard=ctx.n(260, 400))
         except RuntimeError as ex:
             bad = []
             ctx.tie_broken("correspondence", "coq evaluation of generated Vectoring.v failed", str(ex))
